@@ -14,7 +14,8 @@ Reading formalised (one event `e`, `older` = earlier events of the SAME key, mos
 which is the bound ("a pass never makes the window exceed its cap") and sequential exactness
 ("a request is rejected only if its key's share of the current grid window is used up") at once.
 `cap` is a parameter: the judge uses the exact rational `capExact` ("scaled by the percentage, rounded
-up"); the implementation uses float64 (`capFloat`).
+up"); the implementation (after fix F09b) computes it in integer units of 1e-8 (`capUnits`), which is the
+same for percentages with up to six decimals (theorem `capUnits_eq_capExact`).
 
 Spill-over is an opt-in feature the property text does not mention; its reference semantics here is the
 documented one, per grid window: when a key enters a new grid window of an unchanged window size (and it is
@@ -93,10 +94,11 @@ def inputs (h : List (Event κ)) : List (Req κ) := h.map Event.req
     (Before the repairs fix F09a / fix F09c it also excluded boundary instants and window-size changes.) -/
 def clean (h : List (Event κ)) : Bool := admissible (inputs h)
 
-/-- Classifier used by the judge for a history on which `holds capExact` is false.
-    `capImpl` = the float cap: if float rounding alone explains the failure → F09b; else unexplained. -/
-def finding (capImpl : CapFn) (h : List (Event κ)) : Option String :=
-  if holds capImpl h then some "F09b" else none
+/-- percentages with at most six decimals (`num·10^6/den` is an integer): the code's 1e-8 ratio units
+    represent them exactly -/
+def sixDecimals : Ratio → Bool
+  | .one => true
+  | .pct n d => d != 0 && (n * 1000000) % d == 0
 
 end
 
@@ -135,5 +137,42 @@ def answerOk (p : PReq) (a : Answer) : Bool :=
   | .direct (.early s) => a == .early s
   | .direct _ => true
   | .limited _ wd => wd.W == 0 || a == .noop || a == .early (effStatus p.remedy)
+
+/-! ### Groups as the allocation table distinguishes them -/
+
+/-- an event with another key, everything observable unchanged -/
+def rekey {κ κ' : Type} (f : κ → κ') (e : Event κ) : Event κ' := ⟨f e.key, e.t, e.wd, e.pass⟩
+
+/-- Both identities of a plugin-level event: `code` = the counter key `buildGroupID` builds,
+    `spec` = (remedy, group header value exactly as the allocation table matches it). -/
+structure PKey where
+  code : Key
+  spec : Key
+deriving DecidableEq, Repr
+
+def observe1P (p : PReq) (a : Answer) : Option (Event PKey) :=
+  (observe1 p a).map (rekey fun k => ⟨k, specKey p.remedy p.hdrs⟩)
+
+def observeP : List PReq → List Answer → List (Event PKey)
+  | p :: ps, a :: as => (match observe1P p a with | some e => [e] | none => []) ++ observeP ps as
+  | _, _ => []
+
+/-- What the judge evaluates: the limiter events keyed by (remedy, group) as the ALLOCATION TABLE tells groups
+    apart — per group and aligned window, the group's own share. -/
+def observeS (ps : List PReq) (as : List Answer) : List (Event Key) := (observeP ps as).map (rekey (·.spec))
+
+/-- The counter keys tell groups apart exactly as the allocation table does (on the events of this history).
+    Its complement is the class of finding F09e (identity wiring: group values that differ only in surrounding
+    white space share one counter). -/
+def groupFaithful (h : List (Event PKey)) : Bool :=
+  h.all fun a => h.all fun b => (a.key.code == b.key.code) == (a.key.spec == b.key.spec)
+
+/-- Classifier used by the judge for the group `k` (spec key) on whose history `holds capExact` is false:
+    some event of the group shares its counter key with an event of ANOTHER group (not `groupFaithful`) → F09e;
+    else unexplained. -/
+def findingP (h : List (Event PKey)) (k : Key) : Option String :=
+  let hk := h.filter (fun e => e.key.spec == k)
+  if hk.any (fun a => h.any (fun b => a.key.code == b.key.code && !(b.key.spec == k))) then some "F09e"
+  else none
 
 end LunarVerif.C09
